@@ -149,7 +149,6 @@ pub open spec fn load_field_effect(t: St, tmp: Temporary, mb: Register, off: int
     }
 }
 
-pub open spec fn is_ext(b: ContextBinding) -> bool { b.chi == Chirality::Ext }
 
 /// store a variable (second slot always; first slot: pointer, or 0 for an integer) into field `k` of block `mb`
 pub open spec fn store_value_effect(t: St, ext: bool, fst: Temporary, snd: Temporary, mb: Register, k: int) -> St {
